@@ -8,6 +8,9 @@
 -/
 import EmuVerif.Model.MpsObs
 import EmuVerif.Proofs.Dark
+import EmuVerif.Proofs.TensorCx
+import Mathlib.Algebra.Order.Ring.Defs
+import Mathlib.Tactic.Linarith
 
 set_option linter.unusedSectionVars false
 set_option linter.unusedVariables false
@@ -1063,5 +1066,230 @@ theorem normSqAt_spec (d : Nat) (fs : List (Site K)) (c : Nat) (hW : Wf fs) (h1 
   simp only []
   rw [prodOp_oneSite _ c identOp s hs hcn]
   simp [identOp, conj_eq_star]
+
+/-! ### the Gram contracts follow from `q·r = m`, `q†·q = 1` -/
+
+theorem gram_qr_identity (n d p : Nat) (Q : Nat → Nat → Nat → K) (r : Nat → Nat → K) (j j' : Nat) :
+    ∑ l ∈ range n, ∑ x ∈ range d, star (∑ k ∈ range p, Q x l k * r k j) * ∑ k' ∈ range p, Q x l k' * r k' j'
+    = ∑ k ∈ range p, ∑ k' ∈ range p, star (r k j) * r k' j' * ∑ l ∈ range n, ∑ x ∈ range d, star (Q x l k) * Q x l k' := by
+  simp only [star_sum, star_mul', Finset.sum_mul, Finset.mul_sum]
+  simp only [← Finset.sum_product']
+  refine Finset.sum_nbij' (fun z => (z.2.2.2, z.2.2.1, z.1, z.2.1)) (fun z => (z.2.2.1, z.2.2.2, z.2.1, z.1))
+    ?_ ?_ ?_ ?_ ?_ <;> reorder_finish
+
+/-- a reduced `qr` of `C.view(-1, dr)`: `q·r = m` and `q†·q = 1` give the Gram contract of the first loop -/
+theorem gramR_of_qr (f : RMat K) (C : Site K) (q : Nat → Nat → Nat → K)
+    (hqr : ∀ x < C.d, ∀ l < C.dl, ∀ j < C.dr, ∑ k ∈ range f.k, q x l k * f.r k j = C.t x l j)
+    (hqq : ∀ k < f.k, ∀ k' < f.k, ∑ l ∈ range C.dl, ∑ x ∈ range C.d, star (q x l k) * q x l k' = delta k k') :
+    GramR f C := by
+  intro j hj j' hj'
+  rw [Finset.sum_congr rfl (fun l hl => Finset.sum_congr rfl (fun x hx => by
+    rw [← hqr x (Finset.mem_range.mp hx) l (Finset.mem_range.mp hl) j hj,
+      ← hqr x (Finset.mem_range.mp hx) l (Finset.mem_range.mp hl) j' hj']))]
+  rw [gram_qr_identity C.dl C.d f.k q f.r j j']
+  rw [Finset.sum_congr rfl (fun k hk => Finset.sum_congr rfl (fun k' hk' => by
+    rw [hqq k (Finset.mem_range.mp hk) k' (Finset.mem_range.mp hk')]))]
+  exact (sum_delta_right f.k (fun k k' => star (f.r k j) * f.r k' j')).symm
+
+/-- a reduced `qr` of `C.view(dl, -1).mT`: `q·r = m` (`q[(x, m), k]`) and `q†·q = 1` give the contract of the second loop -/
+theorem gramL_of_qr (f : RMat K) (C : Site K) (q : Nat → Nat → Nat → K)
+    (hqr : ∀ x < C.d, ∀ m < C.dr, ∀ j < C.dl, ∑ k ∈ range f.k, q x m k * f.r k j = C.t x j m)
+    (hqq : ∀ k < f.k, ∀ k' < f.k, ∑ m ∈ range C.dr, ∑ x ∈ range C.d, star (q x m k) * q x m k' = delta k k') :
+    GramL f C := by
+  intro j hj j' hj'
+  rw [Finset.sum_comm]
+  rw [Finset.sum_congr rfl (fun m hm => Finset.sum_congr rfl (fun x hx => by
+    rw [← hqr x (Finset.mem_range.mp hx) m (Finset.mem_range.mp hm) j hj,
+      ← hqr x (Finset.mem_range.mp hx) m (Finset.mem_range.mp hm) j' hj']))]
+  rw [gram_qr_identity C.dr C.d f.k q f.r j j']
+  rw [Finset.sum_congr rfl (fun k hk => Finset.sum_congr rfl (fun k' hk' => by
+    rw [hqq k (Finset.mem_range.mp hk) k' (Finset.mem_range.mp hk')]))]
+  exact (sum_delta_right f.k (fun k k' => star (f.r k j) * f.r k' j')).symm
+
+/-! ### scaling one factor -/
+
+theorem scaleAux_getElem? (c : K) (which k : Nat) (fs : List (Site K)) (i : Nat) :
+    (scaleAux c which k fs)[i]? = if k + i = which then (fs[i]?).map (scaleSite c) else fs[i]? := by
+  induction fs generalizing k i with
+  | nil => simp [scaleAux]
+  | cons A fs ih =>
+    cases i with
+    | zero =>
+      simp only [scaleAux, List.getElem?_cons_zero, Nat.add_zero]
+      split <;> simp
+    | succ i =>
+      simp only [scaleAux, List.getElem?_cons_succ]
+      rw [ih (k + 1) i]
+      have : k + 1 + i = k + (i + 1) := by omega
+      rw [this]
+
+theorem scaleFactors_getElem?_ne (c : K) (which : Nat) (fs : List (Site K)) (i : Nat) (h : i ≠ which) :
+    (scaleFactors c which fs)[i]? = fs[i]? := by
+  unfold scaleFactors
+  rw [scaleAux_getElem?, if_neg (by omega)]
+
+theorem scaleFactors_length (c : K) (which : Nat) (fs : List (Site K)) :
+    (scaleFactors c which fs).length = fs.length := (scaleAux_dims c which 0 fs).2.1
+
+theorem amp_scaleFactors (c : K) (which : Nat) (fs : List (Site K)) (hw : which < fs.length) (s : List Nat) :
+    amp (scaleFactors c which fs) s = c * amp fs s := by
+  simp only [amp_eq, scaleFactors, ampVecF_scaleAux c which 0 fs (Nat.zero_le _) (by omega)]
+
+theorem denseProd_scale (d : Nat) (ops : List (Nat → Nat → K)) (c : K) (which : Nat) (fs : List (Site K))
+    (hw : which < fs.length) :
+    denseProd d ops (scaleFactors c which fs) = star c * c * denseProd d ops fs := by
+  unfold denseProd
+  rw [scaleFactors_length]
+  simp only [amp_scaleFactors c which fs hw, conj_eq_star, star_mul']
+  rw [← sumStrings_mul_left]
+  refine sumStrings_congr _ _ _ _ (fun s _ => ?_)
+  rw [← sumStrings_mul_left]
+  refine sumStrings_congr _ _ _ _ (fun t _ => ?_)
+  ring
+
+theorem denseDiag_scale (d : Nat) (w : List Nat → K) (c : K) (which : Nat) (fs : List (Site K))
+    (hw : which < fs.length) :
+    denseDiag d w (scaleFactors c which fs) = star c * c * denseDiag d w fs := by
+  unfold denseDiag
+  rw [scaleFactors_length]
+  simp only [amp_scaleFactors c which fs hw, conj_eq_star, star_mul']
+  rw [← sumStrings_mul_left]
+  refine sumStrings_congr _ _ _ _ (fun s _ => ?_)
+  ring
+
+theorem denseNormSq_scale (d : Nat) (c : K) (which : Nat) (fs : List (Site K)) (hw : which < fs.length) :
+    denseNormSq d (scaleFactors c which fs) = star c * c * denseNormSq d fs := by
+  unfold denseNormSq
+  rw [scaleFactors_length]
+  simp only [amp_scaleFactors c which fs hw, conj_eq_star, star_mul']
+  rw [← sumStrings_mul_left]
+  refine sumStrings_congr _ _ _ _ (fun s _ => ?_)
+  ring
+
+/-! ### real parts and ranges over `Cx α` -/
+
+section real
+variable {α : Type} [Field α] [LinearOrder α] [IsStrictOrderedRing α]
+
+theorem sumTo_re (n : Nat) (g : Nat → Cx α) : (sumTo n g).re = sumTo n (fun i => (g i).re) := by
+  induction n with
+  | zero => rfl
+  | succ n ih => simp only [sumTo, Cx.add_re, ih]
+
+theorem sumTo_im (n : Nat) (g : Nat → Cx α) : (sumTo n g).im = sumTo n (fun i => (g i).im) := by
+  induction n with
+  | zero => rfl
+  | succ n ih => simp only [sumTo, Cx.add_im, ih]
+
+theorem sumStrings_re (d n : Nat) (f : List Nat → Cx α) :
+    (sumStrings d n f).re = sumStrings d n (fun s => (f s).re) := by
+  induction n generalizing f with
+  | zero => rfl
+  | succ n ih => simp only [sumStrings, sumTo_re, ih]
+
+theorem sumStrings_im (d n : Nat) (f : List Nat → Cx α) :
+    (sumStrings d n f).im = sumStrings d n (fun s => (f s).im) := by
+  induction n generalizing f with
+  | zero => rfl
+  | succ n ih => simp only [sumStrings, sumTo_im, ih]
+
+theorem sumTo_mono (n : Nat) (g g' : Nat → α) (h : ∀ i, g i ≤ g' i) : sumTo n g ≤ sumTo n g' := by
+  induction n with
+  | zero => exact le_refl _
+  | succ n ih => simp only [sumTo]; exact add_le_add ih (h n)
+
+theorem sumStrings_mono (d n : Nat) (f g : List Nat → α) (h : ∀ s, f s ≤ g s) :
+    sumStrings d n f ≤ sumStrings d n g := by
+  induction n generalizing f g with
+  | zero => exact h []
+  | succ n ih => simp only [sumStrings]; exact sumTo_mono d _ _ (fun x => ih _ _ (fun s => h (x :: s)))
+
+theorem sumStrings_zero' (d n : Nat) : sumStrings d n (fun _ => (0 : α)) = 0 := sumStrings_zero d n
+
+/-- `|z|²` as a complex number: real, non-negative -/
+theorem normsq_re (z : Cx α) : (conj z * z).re = z.re * z.re + z.im * z.im := by
+  simp only [Cx.mul_re, Cx.conj_re, Cx.conj_im]; ring
+
+theorem normsq_im (z : Cx α) : (conj z * z).im = 0 := by
+  simp only [Cx.mul_im, Cx.conj_re, Cx.conj_im]; ring
+
+/-- expectation value of a diagonal 0/1-valued operator: real, between 0 and `⟨ψ|ψ⟩` -/
+theorem denseDiag_bounds (d : Nat) (w : List Nat → Cx α) (hw : ∀ s, w s = 0 ∨ w s = 1) (fs : List (Site (Cx α))) :
+    (denseDiag d w fs).im = 0 ∧ 0 ≤ (denseDiag d w fs).re ∧ (denseDiag d w fs).re ≤ (denseNormSq d fs).re := by
+  unfold denseDiag denseNormSq
+  rw [sumStrings_im, sumStrings_re, sumStrings_re]
+  have hre : ∀ s, 0 ≤ (w s * (conj (amp fs s) * amp fs s)).re ∧
+      (w s * (conj (amp fs s) * amp fs s)).re ≤ (conj (amp fs s) * amp fs s).re ∧
+      (w s * (conj (amp fs s) * amp fs s)).im = 0 := by
+    intro s
+    have hn : 0 ≤ (conj (amp fs s) * amp fs s).re := by
+      rw [normsq_re]; exact add_nonneg (mul_self_nonneg _) (mul_self_nonneg _)
+    have hi := normsq_im (amp fs s)
+    rcases hw s with h | h
+    · rw [h]
+      refine ⟨?_, ?_, ?_⟩
+      · simp [Cx.mul_re]
+      · simpa [Cx.mul_re] using hn
+      · simp [Cx.mul_im]
+    · rw [h]
+      refine ⟨?_, ?_, ?_⟩
+      · simpa [Cx.mul_re] using hn
+      · simp [Cx.mul_re]
+      · simpa [Cx.mul_im] using hi
+  refine ⟨?_, ?_, ?_⟩
+  · rw [show (fun s => (w s * (conj (amp fs s) * amp fs s)).im) = fun _ => (0 : α) from funext (fun s => (hre s).2.2)]
+    exact sumStrings_zero' d _
+  · rw [← sumStrings_zero' d fs.length]
+    exact sumStrings_mono d _ _ _ (fun s => (hre s).1)
+  · exact sumStrings_mono d _ _ _ (fun s => (hre s).2.1)
+
+end real
+
+/-! ### `orthogonalize` keeps the number of sites -/
+
+theorem rlSweep_length (cnt i : Nat) (fs fs' : List (Site K)) (tape : List (QRr K))
+    (h : rlSweep cnt i fs tape = some fs') : fs'.length = fs.length := by
+  induction cnt generalizing i fs tape with
+  | zero => simp [rlSweep] at h; subst h; rfl
+  | succ cnt ih =>
+    cases tape with
+    | nil => simp [rlSweep] at h
+    | cons f tape =>
+      cases i with
+      | zero => simp [rlSweep] at h
+      | succ i' =>
+        simp only [rlSweep] at h
+        split at h
+        · rw [ih _ _ _ h]; simp [setPair]
+        · exact absurd h (by simp)
+
+theorem lrSweep_length (cnt i : Nat) (fs fs' : List (Site K)) (tape : List (QRl K))
+    (h : lrSweep cnt i fs tape = some fs') : fs'.length = fs.length := by
+  induction cnt generalizing i fs tape with
+  | zero => simp [lrSweep] at h; subst h; rfl
+  | succ cnt ih =>
+    cases tape with
+    | nil => simp [lrSweep] at h
+    | cons f tape =>
+      simp only [lrSweep] at h
+      split at h
+      · rw [ih _ _ _ h]; simp [setPair]
+      · exact absurd h (by simp)
+
+theorem orthogonalize_length (fs fs' : List (Site K)) (center : Option Nat) (desired : Nat)
+    (ltape : List (QRl K)) (rtape : List (QRr K)) (h : orthogonalize fs center desired ltape rtape = some fs') :
+    fs'.length = fs.length := by
+  unfold orthogonalize at h
+  split at h
+  · exact absurd h (by simp)
+  · simp only at h
+    split at h
+    · exact absurd h (by simp)
+    · rename_i fs1 h1
+      rw [rlSweep_length _ _ _ _ _ h, lrSweep_length _ _ _ _ _ h1]
+
+theorem denseProd_congr_amp (d : Nat) (ops : List (Nat → Nat → K)) (fs gs : List (Site K))
+    (hl : gs.length = fs.length) (ha : ∀ s, amp gs s = amp fs s) : denseProd d ops gs = denseProd d ops fs := by
+  unfold denseProd; rw [hl]; simp only [ha]
 
 end EmuVerif.MpsObs
